@@ -15,8 +15,8 @@ Proved here:
                                    `matrix_application` (ring relations / determinants = norms / geometric meaning of the generators:
                                    C18 `L*_action_relations`, `L*_action_dets`, `L*_action_geometric`);
   * `find_uv_step_sound`           the arithmetic step of `find_uv`: the returned (u, v) satisfies u·d1 + v·d2 = 2^i3·target, u > 0;
-  * `L{1,3,5}_fdi_index_range`     `fixed_degree_isogeny` (small case): for lo ≤ bits(u) ≤ hi (table-derived) the doubling count is
-                                   ≥ 0 and the strategy row index is inside the table; `L1_fdi_index_negation`: just outside the range
+  * `L{1,3,5}_fdi_index_range`     `fixed_degree_isogeny` (small case): for lo ≤ bits(u) ≤ hi (table- and p-derived) the doubling count is
+                                   ≥ 0, the strategy row index is inside the table and u < 2^length; `L1_fdi_index_negation`: outside the range
                                    the C ints are negative / beyond the table (→ C04).
 PARTIAL (not formalised): Deuring correspondence and Kani's lemma — "the returned curve/basis is the image under an isogeny of
 degree N(I)", "equivalent ideals give isomorphic curves": checked by tools/props/c13.py (exact order 2^f of the image points,
@@ -137,40 +137,41 @@ theorem fdi_index_in_range (T bp rows b : ℤ) (h1 : bp + 15 - b ≤ T - 2) (h2 
   unfold fdiDblCount fdiRow fdiLength; omega
 
 open SqiModel.IdealKernel in
-/-- level 1 (T = 248, bits(p) = 251, 134 strategy rows, all generated): 20 ≤ bits(u) ≤ 151 ⇒ indices in range -/
-theorem L1_fdi_index_range (b : ℤ) (hlo : 20 ≤ b) (hhi : b ≤ 151) :
+/-- level 1 (T = 248, bits(p) = 251, 134 strategy rows, all generated): 20 ≤ bits(u) ≤ 132 ⇒ indices in range and
+    bits(u) < length (so u < 2^length, the disabled assert of the C code; the table alone would allow bits(u) ≤ 151) -/
+theorem L1_fdi_index_range (b : ℤ) (hlo : 20 ≤ b) (hhi : b ≤ 132) :
     let T : ℤ := SqiGen.L1.D_POWER_OF_2; let bp : ℤ := SqiGen.L1.FP_p.log2 + 1; let rows : ℤ := SqiGen.L1.strategies.length
-    0 ≤ fdiDblCount T bp b ∧ 2 ≤ fdiRow T bp b ∧ fdiRow T bp b < rows := by
+    0 ≤ fdiDblCount T bp b ∧ 2 ≤ fdiRow T bp b ∧ fdiRow T bp b < rows ∧ b < fdiLength bp b := by
   intro T bp rows
   have e1 : T = 248 := by decide +kernel
   have e2 : bp = 251 := by decide +kernel
   have e3 : rows = 134 := by decide +kernel
   have := fdi_index_in_range T bp rows b (by omega) (by omega)
-  exact ⟨this.1, this.2.1, this.2.2.1⟩
+  exact ⟨this.1, this.2.1, this.2.2.1, by unfold fdiLength; omega⟩
 open SqiModel.IdealKernel in
-theorem L3_fdi_index_range (b : ℤ) (hlo : 24 ≤ b) (hhi : b ≤ 219) :
+theorem L3_fdi_index_range (b : ℤ) (hlo : 24 ≤ b) (hhi : b ≤ 198) :
     let T : ℤ := SqiGen.L3.D_POWER_OF_2; let bp : ℤ := SqiGen.L3.FP_p.log2 + 1; let rows : ℤ := SqiGen.L3.strategies.length
-    0 ≤ fdiDblCount T bp b ∧ 2 ≤ fdiRow T bp b ∧ fdiRow T bp b < rows := by
+    0 ≤ fdiDblCount T bp b ∧ 2 ≤ fdiRow T bp b ∧ fdiRow T bp b < rows ∧ b < fdiLength bp b := by
   intro T bp rows
   have e1 : T = 376 := by decide +kernel
   have e2 : bp = 383 := by decide +kernel
   have e3 : rows = 198 := by decide +kernel
   have := fdi_index_in_range T bp rows b (by omega) (by omega)
-  exact ⟨this.1, this.2.1, this.2.2.1⟩
+  exact ⟨this.1, this.2.1, this.2.2.1, by unfold fdiLength; omega⟩
 open SqiModel.IdealKernel in
-theorem L5_fdi_index_range (b : ℤ) (hlo : 22 ≤ b) (hhi : b ≤ 279) :
+theorem L5_fdi_index_range (b : ℤ) (hlo : 22 ≤ b) (hhi : b ≤ 259) :
     let T : ℤ := SqiGen.L5.D_POWER_OF_2; let bp : ℤ := SqiGen.L5.FP_p.log2 + 1; let rows : ℤ := SqiGen.L5.strategies.length
-    0 ≤ fdiDblCount T bp b ∧ 2 ≤ fdiRow T bp b ∧ fdiRow T bp b < rows := by
+    0 ≤ fdiDblCount T bp b ∧ 2 ≤ fdiRow T bp b ∧ fdiRow T bp b < rows ∧ b < fdiLength bp b := by
   intro T bp rows
   have e1 : T = 500 := by decide +kernel
   have e2 : bp = 505 := by decide +kernel
   have e3 : rows = 260 := by decide +kernel
   have := fdi_index_in_range T bp rows b (by omega) (by omega)
-  exact ⟨this.1, this.2.1, this.2.2.1⟩
+  exact ⟨this.1, this.2.1, this.2.2.1, by unfold fdiLength; omega⟩
 
 open SqiModel.IdealKernel in
-/-- NEGATION just outside the range (level 1 numbers): bits(u) = 19 gives a negative doubling count (and row 1, whose strategy
+/-- NEGATION outside the range (level 1 numbers): bits(u) = 19 gives a negative doubling count (and row 1, whose strategy
     is for a longer chain than 2^f allows), bits(u) = 152 indexes row 134 of a 134-row table — the C code has no check (→ C04) -/
-theorem L1_fdi_index_negation : fdiDblCount 248 251 19 < 0 ∧ ¬ (fdiRow 248 251 152 < 134) := by decide
+theorem L1_fdi_index_negation : fdiDblCount 248 251 19 < 0 ∧ ¬ (fdiRow 248 251 152 < 134) ∧ ¬ ((133 : ℤ) < fdiLength 251 133) := by decide
 
 end SqiProps.C13
